@@ -151,3 +151,64 @@ pub fn scrub(msg: &str) -> String {
     out.push_str(rest);
     out.chars().take(240).collect()
 }
+
+/// Why a robust parallel run produced no result.
+pub enum StuckErr {
+    /// (worker processes) the process is tainted by the stuck run: restart a fresh process at this level
+    Respawn(u8),
+    Final(String),
+}
+
+/// knobs of preemption level `level`: 0 as planned, 1 without edge points, 2 task-granular
+pub fn knobs_at_level(knobs: &SimKnobs, level: u8) -> SimKnobs {
+    let mut k = knobs.clone();
+    if level >= 1 {
+        k.edge_thin = 0;
+    }
+    if level >= 2 {
+        k.log_thin = 0;
+    }
+    k
+}
+
+/// `run_par` with the coarser-preemption retry chain: a task preempted while it holds a std lock blocks the
+/// single-threaded simulation (an artefact of cooperative scheduling, not of the code under test).
+/// Returns the run, the knobs that were finally used and the number of coarsenings.  A stuck run leaves its
+/// threads (and whatever lock they hold) behind, so a worker process does not retry in place: it asks to be
+/// restarted at the next level (`StuckErr::Respawn`); the driver / replay process retries in place.
+pub fn run_par_robust(
+    env: &Env,
+    input: &[u8],
+    cfg: &CfgBits,
+    ops: &[Op],
+    ambient: &Ambient,
+    knobs: &SimKnobs,
+    replay: Option<(ScheduleRec, bool)>,
+    run_tag: u64,
+) -> Result<(Ran, SimKnobs, u32), StuckErr> {
+    let replaying = replay.is_some();
+    let is_stuck = |r: &Ran| r.abort.as_deref().map(|m| m.starts_with("STUCK-IN-SIM")).unwrap_or(false);
+    let mut level = if replaying { 0 } else { crate::simrt::start_level() };
+    let mut replay = replay;
+    let mut retries = level as u32;
+    loop {
+        let k = knobs_at_level(knobs, level);
+        let ran = run_par(env, input, cfg, ops, ambient, &k, replay.take(), run_tag);
+        if !is_stuck(&ran) {
+            return Ok((ran, k, retries));
+        }
+        if replaying {
+            return Err(StuckErr::Final("the replayed schedule got stuck (STUCK-IN-SIM)".into()));
+        }
+        // level 1 equals level 0 when the plan had no edge points
+        let next = if level == 0 && k.edge_thin != 0 { 1 } else { 2 };
+        if level >= 2 {
+            return Err(StuckErr::Final("the simulated run made no progress even at task granularity (STUCK-IN-SIM)".into()));
+        }
+        if crate::simrt::respawn_mode() {
+            return Err(StuckErr::Respawn(next));
+        }
+        level = next;
+        retries += 1;
+    }
+}
